@@ -17,7 +17,7 @@ def chunks(lst, n):
 # ------------------------------------------------------------------------------------------ F1 arithmetic
 MI_LITS = [0, 1, -1, 2, -2, 7, (1 << 31) - 1, (1 << 31) + 1, 1 << 32, 1 << 62, (1 << 63) - 1, -(1 << 63) + 1]
 BI_LITS = [0, 1, -1, (1 << 63) - 1, (1 << 63) + 1, 1 << 64, 10 ** 20, -(10 ** 20), (1 << 200) - 1]
-AOPS = ['+', '-', '*', 'quo', 'rem', 'mod']
+AOPS = ['+', '-', '*', 'quo', 'rem', 'mod', 'gcd', 'max', 'min']
 COPS = ['<', '<=', '=', '~=', '>', '>=']
 
 
@@ -31,7 +31,7 @@ def f1(tier):
             for a in lits:
                 for b in lits:
                     e1 = B(op, L(a), L(b))
-                    e2 = ('call', 'h' + str(AOPS.index(op) if op in AOPS else 6 + COPS.index(op)), [L(a), L(b)])
+                    e2 = ('call', 'h' + str(AOPS.index(op) if op in AOPS else len(AOPS) + COPS.index(op)), [L(a), L(b)])
                     pr = P if op in AOPS else PB
                     stmts.append(('pair', op, [pr(e1), pr(e2)]))
         # depth 2
@@ -859,6 +859,43 @@ c@K@(): () == {
         a = ['int', '7'] if first == 'i' else ['str', 'seven']
         b = ['str', 'str'] if first == 'i' else ['int', '9']
         C.append(raw(text, a + b + ['int', '1', 'str', 'two', 'int', '3']))
+    # evaluation order inside a tuple: components are evaluated left to right, so a bare variable, an expression on it, a
+    # call that updates it and an assignment to it give different values in different orders.  All tuples of length 2 and 3
+    # over those four kinds with an updater and a reader in them, as the right-hand side of a multiple assignment and as
+    # the value returned by a function.
+    comp = {'v': 'n', 'e': '(n + 100)', 'c': 'tk@K@()', 'a': '(n := n + 5)'}
+
+    def sim(t):
+        n, out = 3, []
+        for k in t:
+            if k == 'v':
+                out.append(n)
+            elif k == 'e':
+                out.append(n + 100)
+            elif k == 'c':
+                n += 1
+                out.append(n)
+            else:
+                n += 5
+                out.append(n)
+        return out, n
+    for ln in (2, 3):
+        for t in itertools.product('veca', repeat=ln):
+            if not (set(t) & set('ca')) or not (set(t) & set('ve')):
+                continue
+            if tier == 'quick' and ln == 3 and t[0] not in 've':
+                continue
+            vals, nfin = sim(t)
+            names = ', '.join('x%d' % i for i in range(ln))
+            tup = ', '.join(comp[k] for k in t)
+            typ = ', '.join(['MachineInteger'] * ln)
+            prints = ' '.join('pIMI("K@K@:", x%d);' % i for i in range(ln))
+            head = 'n@K@: MachineInteger := 3;\ntk@K@(): MachineInteger == { import from MachineInteger; free n@K@; n@K@ := n@K@ + 1; n@K@ }\n'
+            body1 = head + 'c@K@(): () == {\n\timport from MachineInteger;\n\tfree n@K@;\n\tn@K@ := 3;\n\t(%s) := (%s);\n\t%s pIMI("K@K@:", n@K@);\n}\n' % (names, tup.replace('n', 'n@K@').replace('n@K@ew', 'new'), prints)
+            C.append(raw(body1, [str(v) for v in vals] + [str(nfin)]))
+            body2 = head + 'rt@K@(): (%s) == { import from MachineInteger; free n@K@; (%s) }\nc@K@(): () == {\n\timport from MachineInteger;\n\tfree n@K@;\n\tn@K@ := 3;\n\t(%s) := rt@K@();\n\t%s pIMI("K@K@:", n@K@);\n}\n' % (
+                typ, tup.replace('n', 'n@K@'), names, prints)
+            C.append(raw(body2, [str(v) for v in vals] + [str(nfin)]))
     # default arguments? keyword-free: partial application through closures returning several values
     C.append(raw('''c@K@(): () == {
 	import from MachineInteger;
